@@ -2,11 +2,11 @@ CONFIG = dict(
         level='proof',
         streams=[dict(harness='c08', driver='c08', shrink_field='ops')],
         rule='three streams on the REAL objects, each case an operation list (Consume on copy i / Fork(n) of copy i) with a snapshot of EVERY '
-             'copy after EVERY operation. bd / bdex: leaves.BurndownAnalysis (people tracking on/off), populated by 1-4 commits, forked 1-3 ways '
+             'copy after EVERY operation. bd / bdex: leaves.BurndownAnalysis (people tracking on/off, TrackFiles on/off), populated by 1-4 commits, forked 1-3 ways '
              'repeatedly (up to 6 live copies, forks of forks), then real Consume calls with fabricated dependencies (insertions, deletions, '
              'modifications with edit scripts, renames, binary flips, merge-mode commits, time going backwards; 30 % of the cases also carry '
              'irregular input: wrong lengths, double inserts, renames over tracked files, untracked paths) on random copies; bdex = one file of 3 '
-             'lines, 3 copies, every sequence of 2 commits out of a 3 copies x 9 changes alphabet, both people modes. rb / rbex: '
+             'lines, 3 copies, every sequence of 2 commits out of a 3 copies x 9 changes alphabet, 2 (quick) / 4 (thorough) people x TrackFiles modes. rb / rbex: '
              'rbtree.Allocator.Clone + RBTree.CloneShallow of 1-4 trees, then Insert / DeleteWithKey / Erase / CloneDeep / NewRBTree / further '
              'clones on random sides; rbex = tree {1,2,3}, two sides, every sequence of 3 operations out of 2 sides x 7 operations. pl: '
              'plumbing.TreeDiff, BlobCache, TicksSinceStart (tick 1 h / 24 h / 7 d) forked 1-3 ways on synthetic in-memory repositories (nested '
@@ -15,14 +15,15 @@ CONFIG = dict(
              'output recorded next to the output of a fresh never forked instance fed with the same branch-local commits. '
              'Non-trivial = at least one Fork and at least one later mutation (bd: Consume; rb: Insert/Delete/Erase; pl: two Consume); '
              'distinct = distinct configuration + operation list (+ commit list).',
-        exhaustive_note='bdex: 3 copies x 9 changes, all 729 two-commit sequences x 2 people modes; rbex: 2 sides x 7 operations, all 2744 three-operation sequences',
+        exhaustive_note='bdex: 3 copies x 9 changes, all 729 two-commit sequences x 2 configurations (thorough: 4); rbex: 2 sides x 7 operations, all 2744 three-operation sequences',
         assumptions=[
             'the split of every item into a private and a shared part (coq/theories/Fork/Model.v, table in docs/C08.md) was made by reading '
             'each Fork method; that the Go Fork really copies the private part is NOT a theorem (heap aliasing is not expressible in Gallina): '
             'it is what the correspondence check observes, copy by copy, after every step',
-            'BurndownAnalysis is exercised with TrackFiles off (fileHistories and the history-object identity kept by the per-file updaters are '
-            'shared by design and not modelled); a tracked file is modelled by its flattened line array (that File.Update refines the array '
-            'operation is C03)',
+            'of fileHistories (TrackFiles on) only the set of paths that have a history is modelled (that is what handleRename reads); the '
+            'history objects bound to the per-file updaters are shared by design and not modelled; the error and cycle branches of the '
+            'rename-chain walk in handleRename are transcribed from the code but were never reached by the generators; a tracked file is '
+            'modelled by its flattened line array (that File.Update refines the array operation is C03)',
             'go-git DiffTree on the synthetic repositories is compared with a path-wise tree diff (no renames, no mode changes: C20 covers those)',
             'after an error or panic of Consume the Go object is half-updated: the case stops there; the snapshot of the OTHER copies is still compared',
         ],
@@ -49,7 +50,7 @@ CONFIG = dict(
                    'enumeration explicit and checked but cannot show that the Go Fork methods copy what the model calls private; that is '
                    'established only for the generated scenarios (exhaustive small scopes + seeded random), by snapshotting every copy after '
                    'every operation. Modelled rather than verified: reflect-based ForkCopyPipelineItem, Allocator.Clone, CloneShallow/CloneDeep, '
-                   'go-git, diffmatchpatch. Not modelled: TrackFiles (fileHistories), hibernation of forked allocators (C09), Merge (C07). '
+                   'go-git, diffmatchpatch. Not modelled: the content of fileHistories, hibernation of forked allocators (C09), Merge (C07). '
                    'Observations recorded in docs/C08.md: BlobCache.Fork does not copy the logger (a forked BlobCache panics with a nil '
                    'dereference where the original logs an error); whether BlobCache.Fork copies or shares the cache MAP is unobservable '
                    '(Consume replaces the map, never writes to it); BurndownAnalysis.mergedFiles is shared by pointer after Fork but every '
